@@ -43,6 +43,15 @@ def used_ids(sc, ops):
             args.add(op[1])
     for sid in specs:
         args.update(model.spec_arg_ids(sc["specs"][sid]))
+    grew = True
+    while grew:  # bases of derived arguments (envelope views, composed transforms)
+        grew = False
+        for a in list(args):
+            ad = sc["args"].get(a, {})
+            for b in ([ad["view_of"]] if "view_of" in ad else []) + list(ad.get("compose", {}).values()):
+                if b not in args:
+                    args.add(b)
+                    grew = True
     return specs, clients, args
 
 
